@@ -2,6 +2,20 @@
 """print the prompt for an independent mutation agent for property <ID> (property text only)."""
 import json, sys
 pid = sys.argv[1]; wt = sys.argv[2]; n = sys.argv[3] if len(sys.argv) > 3 else '2'
+import glob, os
+avoid = []
+for m in sorted(glob.glob('/verif/seeded/%s-*/meta.json' % pid)):
+    b = json.load(open(m)).get('breaks', '')
+    if b and not b.startswith('see demo'):
+        avoid.append(b.split(' (demo.py')[0])
+    else:
+        d = open(os.path.dirname(m) + '/patch.diff').read().splitlines()
+        fn = [l[6:] for l in d if l.startswith('+++ b/')]
+        ch = [l.strip() for l in d if (l.startswith('-') or l.startswith('+')) and not l.startswith(('---', '+++'))][:4]
+        avoid.append('%s: %s' % (', '.join(fn), ' | '.join(c[:90] for c in ch)))
+AVOID = ('\nChanges of the following kinds have already been made by others; produce DIFFERENT ones (other functions, other mechanisms):\n'
+         + ''.join('  - %s\n' % a for a in avoid)) if avoid else ''
+K0 = len(glob.glob('/verif/seeded/%s-*' % pid))
 p = [json.loads(l) for l in open('/verif/properties.jsonl') if l.strip()]
 p = [x for x in p if x['id'] == pid][0]
 print(f"""You are testing how well a hidden verification suite detects regressions in the Python library magenta/note-seq. You work ONLY inside your own scratch git worktree of the repository at {wt} (already created; it is a detached checkout of the current code). Do NOT read or write anything under /verif, and do NOT modify /repo itself. Run Python as `cd {wt} && PYTHONPATH={wt} /venv/bin/python …` so that `import note_seq` picks up YOUR worktree (check once with `print(note_seq.__file__)`).
@@ -13,9 +27,11 @@ Here is a semantic property the library is supposed to satisfy:
   Quantifier: {p['quantifier']['text']}
   Code it is anchored in: {', '.join(p['anchors']['files'])}
 
+NEVER use `git stash` (the stash is shared between all worktrees of the repository and other people are working in sibling worktrees); to switch between clean and changed code use `git -C {wt} apply <patch>` / `git -C {wt} apply -R <patch>` / `git -C {wt} checkout -- .` only.
+{AVOID}
 Task: produce {n} DIFFERENT realistic source changes ("seeded defects") to the library, each of which BREAKS this property while the package still imports and the existing test suite still passes exactly as before. Each change should look like a plausible maintenance edit or refactoring slip (a changed comparison at a boundary, a dropped sort or copy, an off-by-one in a range or table, a swapped tie-break, a forgotten field, a wrong default), and should need SOMETHING SPECIFIC to manifest — an unusual input, a coincidence of times, a particular configuration, a multi-step sequence of operations, or two cooperating edits that each look fine alone — not something ordinary use would expose at once. Prefer edits of 1–6 lines.
 
-For each change k = 1..{n}:
+For each change k = {K0+1}..{K0+int(n)} (use exactly these numbers in the file names):
  1. Start from a clean worktree (`git -C {wt} checkout -- .`), make the edit, save it as a patch: `git -C {wt} diff > {wt}/seed_{pid}_k.diff`.
  2. Write a small demonstration program `{wt}/demo_{pid}_k.py` that exits 0 when the property holds on its input and exits 1 (printing what went wrong) when it does not. It must FAIL (exit 1) with your change applied and PASS (exit 0) on the clean worktree. Verify both.
  3. Run the existing test suite with the change applied: `cd {wt} && PYTHONPATH={wt} /venv/bin/python -m pytest -q -p no:cacheprovider --timeout=900 --continue-on-collection-errors -x -q 2>&1 | tail -5` is NOT enough because 11 tests fail on the clean tree already (abc_parser_test::testParseEnglishAbc, audio_io_test::testWavDataToSamplesPydub, and nine sequences_lib_test tests: testExtractSubsequence, testSplitNoteSequenceAtTimes, testSplitNoteSequenceMultipleTimeChanges, testSplitNoteSequenceMultipleTimeChangesSkipSplitsInsideNotes, testSplitNoteSequenceOnSilence, testSplitNoteSequenceSkipSplitsInsideNotes, testSplitNoteSequenceWithHopSize, testSplitNoteSequenceWithStatelessEvents, testStretchNoteSequence). Run WITHOUT -x and confirm the summary is exactly `11 failed, 321 passed` (same as clean). If your change makes any additional test fail, it does not qualify — pick another.
